@@ -67,6 +67,12 @@ CHECKS["C09"] = {
     "technique": "symbolic execution (CrossHair/z3) of the whole analysis + evaluation on load-placement templates with symbolic producer state, differential against the plain twin",
 }
 
+CHECKS["C04"] = {
+    "text": "Real _api / store code (analysis of the concrete pipeline run natively) over memory, local (file-system model) and cache-wrapped local stores: three-step histories in which the code version of every step is a solver variable (edits, re-keeps, reverts) and the blob payload a symbolic string, for entry patterns (same pipeline / another pipeline in between), entry styles (dds.eval of an un-kept root, top-level dds.keep), restarts and path shapes (flat, shared directories, 4 segments with concatenation-ambiguous names, spaces / non-ASCII). After every step every path kept so far is read back by dds.load in the same process, by dds.load in a fresh process and (local) from the file under the data directory and must equal the value returned by the latest evaluation that kept it.",
+    "design_ref": "DESIGN.md 5-C04",
+    "technique": "symbolic execution (CrossHair/z3) of the real evaluation and stores over a file-system model; code version per history step and payload as solver variables",
+}
+
 NOT_APPLICABLE = {}
 
 
